@@ -784,9 +784,13 @@ func runC17P12(c *Ctx, rk *rsa.PrivateKey, rcert *gx509.Certificate) {
 			rep.Violation("C17/pkcs12.ToPEM/panic/"+pi.Func, pi.Value, w)
 		}
 		// wrong passwords
-		for wn, wp := range map[string]string{"appended": pw.p + "x", "other": "not the password", "case": "pASSW0RD", "empty-or-space": map[bool]string{true: " ", false: ""}[pw.p == ""]} {
+		for wn, wp := range map[string]string{"appended": pw.p + "x", "other": "not the password", "case": "pASSW0RD", "empty-or-space": map[bool]string{true: " ", false: ""}[pw.p == ""],
+			"trailing-newline": pw.p + "\n", "trailing-space": pw.p + " ", "leading-space": " " + pw.p, "quoted": "\"" + pw.p + "\"", "trailing-nul": pw.p + "\x00", "doubled": pw.p + pw.p} {
 			if wp == pw.p {
 				continue
+			}
+			if strings.Trim(wp, "\x00") == "" && strings.Trim(pw.p, "\x00") == "" {
+				continue // the PKCS#12 KDF repeats the BMP password to fill a block: passwords made of NULs only all give the all-zero block
 			}
 			var e error
 			var pk2 interface{}
